@@ -180,7 +180,9 @@ class Worker:
             pass
         if op == "oledom":
             from . import c01_mutators as M
-            return {"id": job.get("id"), "dom": M.ole_vector_evidence(data), "ev": [], "size": len(data)}
+            dom = M.ole_vector_evidence(data)
+            dom.update(M.pdf_cycle_evidence(data))
+            return {"id": job.get("id"), "dom": dom, "ev": [], "size": len(data)}
         if op == "clisub":
             return self.run_clisub(job, data)
         inject = None
@@ -199,6 +201,7 @@ class Worker:
                 return d
             self.cli.serialize_extraction = ser
         out = {"id": job.get("id")}
+        cpu0 = time.process_time()
         so, se = sys.stdout, sys.stderr
         try:
             kind, what = self.call(job, data)
@@ -237,6 +240,7 @@ class Worker:
             sys.stdout, sys.stderr = so, se
             self.cli.serialize_extraction = real_ser
         out["ev"] = ev
+        out["cpu"] = round(time.process_time() - cpu0, 3)
         out["sha"] = __import__("hashlib").sha256(data).hexdigest()[:16]
         out["size"] = len(data)
         out["detail"] = rec.exc_detail[:6]
@@ -516,6 +520,11 @@ class Pool:
                 if res in ("timeout", "eof"):
                     # the CPU limit (SIGXCPU) is the sharp criterion; wall overrun = hung or still spinning
                     rc = proc.p.poll()
+                    if rc is None and res == "eof":
+                        try:
+                            rc = proc.p.wait(15)          # the pipe closes before the exit status is available
+                        except Exception:
+                            rc = None
                     kind = "Timeout" if (res == "timeout" or rc == -signal.SIGXCPU) else "WorkerDied"
                     proc.kill()
                     results[i] = {"id": i, "ev": [{"a": kind}], "killed": kind, "rc": rc, "wall": round(time.time() - t0, 1)}
